@@ -188,7 +188,7 @@ def run_w(prop, tier, seed, args):
               f"(from {payload['original_event_count']})")
         print(f"  detail: {payload['detail']}")
         rc = 1
-    # known findings are re-demonstrated from their committed replay on every run
+    agg.dump_digests(args.digests)
     wall_s = time.time() - t0
     rule = mode.rule if hasattr(mode, "rule") else (
         "one case = one seeded simulated run (configuration drawn per run, then a PRNG-chosen event sequence over "
@@ -219,6 +219,7 @@ def main(argv=None):
     ap.add_argument("--wall", type=float)
     ap.add_argument("--workers", type=int)
     ap.add_argument("--quiet", action="store_true")
+    ap.add_argument("--digests", help="write per-run digests to this file (determinism self-test)")
     args = ap.parse_args(argv)
     prop = args.prop
     if boot.pin_env():
